@@ -138,7 +138,7 @@ func H_C13_dedup() { vfC13Dedup(3, 2) }
 // H_C13_dedup_deep: same as H_C13_dedup with deeper bounds.
 // bounds: n<=4 rows, L<=3 columns, residues in {A,C,N,X,-}, the three alphabets, nAsGap in {false,true}
 // outside: n>4, L>3
-//verif: tier=thorough
+// verif: tier=thorough
 func H_C13_dedup_deep() { vfC13Dedup(4, 3) }
 
 func vfC13DedupBag(nmax, lmax int) {
@@ -185,7 +185,7 @@ func H_C13_dedup_bag() { vfC13DedupBag(3, 2) }
 // H_C13_dedup_bag_deep: as H_C13_dedup_bag, deeper.
 // bounds: n<=4 sequences of individual lengths 0..2
 // outside: n>4, lengths>2
-//verif: tier=thorough
+// verif: tier=thorough
 func H_C13_dedup_bag_deep() { vfC13DedupBag(4, 2) }
 
 func vfC13SameCol(a [][]uint8, ca int, b [][]uint8, cb int) bool {
@@ -260,7 +260,7 @@ func H_C13_compress_rows() { vfC13Compress(3, 3, vfC13Printable) }
 // H_C13_compress_deep: as H_C13_compress_rows, deeper.
 // bounds: n<=3 rows, L<=4 columns, residues printable ASCII
 // outside: n>3, L>4
-//verif: tier=thorough
+// verif: tier=thorough
 func H_C13_compress_deep() { vfC13Compress(3, 4, vfC13Printable) }
 
 func vfC13Printable(c uint8) bool { return c >= 0x21 && c <= 0x7e }
